@@ -36,6 +36,7 @@ def tree(patch=None):
 
 
 def drop(d):
+    shutil.rmtree(os.path.join(tempfile.gettempdir(), "vf_out_other_tree", os.path.basename(d.rstrip("/"))), ignore_errors=True)
     subprocess.run(["git", "-C", "/repo", "worktree", "remove", "--force", d], stdout=subprocess.DEVNULL, stderr=subprocess.DEVNULL)
     shutil.rmtree(d, ignore_errors=True)
 
